@@ -12,9 +12,9 @@ KF_ESCAPE = "C08:sqlalchemy/common.py:_substr_function:autoescape-clause"
 # literal assignments: (kind, value A, value B) — both valid for the kind, both distinctive enough to be searched for in SQL text
 VALUES = {
     "String": [("alpha_sentinel", "b'; DROP TABLE t; --"), ("O'B", "x\"y"), ("zzq", "qzz zzq")],
-    "Integer": [("424242", "737373"), ("-424242", "5")],
-    "Float": [("4242.5", "7373.25")],
-    "Date": [("2020-01-01", "1999-12-31")],
+    "Integer": [("424242", "737373"), ("-424242", "5"), ("9223372036854775808", "6"), ("-9223372036854775809", "9223372036854775807"), ("99999999999999999999999", "0")],
+    "Float": [("4242.5", "7373.25"), ("1.5e10", "2E-3")],
+    "Date": [("2020-01-01", "1999-12-31"), ("0001-01-01", "9999-12-31")],
     "DateTime": [("2020-01-01T10:00:00Z", "1999-12-31T23:59:59Z")],
     "GUID": [("01234567-89ab-cdef-0123-456789abcdef", "aaaaaaaa-bbbb-cccc-dddd-eeeeeeeeeeee")],
 }
